@@ -326,6 +326,67 @@ fn judge_padded(reference: &[u8], out: &[u8], want_len: usize, same_signature: b
     Ok(())
 }
 
+// ------------------------------------------------------------------------------------------------
+// candidate repair of pad_cose_sig (used only with VERIF_SELFTEST=patched: shows that the oracle accepts a
+// correct padding routine for every slack >= 5 and documents the suggested fix; never used for a verdict
+// about the SDK)
+// ------------------------------------------------------------------------------------------------
+
+/// Encoded size of a CBOR byte string holding `n` bytes.
+fn bstr_size(n: usize) -> usize {
+    n + match n {
+        0..=23 => 1,
+        24..=255 => 2,
+        256..=65_535 => 3,
+        65_536..=0xffff_ffff => 5,
+        _ => 9,
+    }
+}
+
+/// Length n of the byte string whose encoding occupies exactly `room` bytes, if there is one.
+fn exact_bstr(room: usize) -> Option<usize> {
+    [1usize, 2, 3, 5, 9].iter().filter_map(|h| room.checked_sub(*h)).find(|n| bstr_size(*n) == room)
+}
+
+fn candidate_pad_cose_sig(tagged: &[u8], end_size: usize) -> Result<Vec<u8>, String> {
+    const PAD_ENTRY: usize = 1 + 3; // text header + "pad"
+    const PAD2_ENTRY: usize = 1 + 4; // text header + "pad2"
+    let sign1 = CoseSign1::from_tagged_slice(tagged).map_err(|e| format!("{e}"))?;
+    let cur = sign1.clone().to_tagged_vec().map_err(|e| format!("{e}"))?;
+    if cur.len() == end_size {
+        return Ok(cur);
+    }
+    if cur.len() > end_size {
+        return Err("BoxSizeTooSmall".into());
+    }
+    let slack = end_size - cur.len();
+    // one entry when a byte string of exactly the right size exists, else an empty "pad" plus a "pad2"
+    let pads: Vec<(&str, usize)> = if let Some(n) = slack.checked_sub(PAD_ENTRY).and_then(exact_bstr) {
+        vec![("pad", n)]
+    } else if let Some(n) = slack.checked_sub(PAD_ENTRY + 1 + PAD2_ENTRY).and_then(exact_bstr) {
+        vec![("pad", 0), ("pad2", n)]
+    } else {
+        return Err("BoxSizeTooSmall".into()); // 1..4 spare bytes cannot be expressed
+    };
+    let mut padded = sign1;
+    for (label, n) in pads {
+        padded.unprotected.rest.push((Label::Text(label.to_string()), Value::Bytes(vec![0u8; n])));
+    }
+    let out = padded.to_tagged_vec().map_err(|e| format!("{e}"))?;
+    if out.len() != end_size {
+        return Err("BoxSizeTooSmall".into());
+    }
+    Ok(out)
+}
+
+fn pad_under_test(selftest: &str, tagged: &[u8], end_size: usize) -> Result<Vec<u8>, String> {
+    if selftest == "patched" {
+        candidate_pad_cose_sig(tagged, end_size)
+    } else {
+        c2pa::verif_hooks::pad_cose_sig(tagged, end_size)
+    }
+}
+
 /// Optional self-test corruption of an SDK answer (sensitivity check of the oracle, VERIF_SELFTEST).
 fn selftest_corrupt(mode: &str, v: &mut Vec<u8>, slack: i64) {
     match mode {
@@ -434,7 +495,7 @@ fn judge_hook(run: &Run, w: &World, c: &SizeCase) -> CaseResult {
         return Ok(());
     }
     let end = end as usize;
-    let res = match vh::catch(|| c2pa::verif_hooks::pad_cose_sig(&fx.unpadded, end)) {
+    let res = match vh::catch(|| pad_under_test(&w.selftest, &fx.unpadded, end)) {
         Ok(r) => r,
         Err(p) => {
             return Err(Fail::new(
@@ -443,6 +504,8 @@ fn judge_hook(run: &Run, w: &World, c: &SizeCase) -> CaseResult {
             ))
         }
     };
+    // self-test: pretend the SDK reports a size error inside the interval that works on the pinned tree
+    let res = if w.selftest == "midfail" && c.slack == 1_000 { Err("BoxSizeTooSmall (self-test)".to_string()) } else { res };
     match res {
         Ok(mut v) => {
             run.count("hook:ok");
@@ -809,7 +872,7 @@ fn main() {
     for f in fixtures.iter_mut() {
         // smallest padded reserve that works (for the monotonicity wording / class), and the exact-size sanity
         f.first_padded_ok = (1..=MAX_SLACK).find(|s| {
-            matches!(vh::catch(|| c2pa::verif_hooks::pad_cose_sig(&f.unpadded, f.u() + *s as usize)), Ok(Ok(_)))
+            matches!(vh::catch(|| pad_under_test(&selftest, &f.unpadded, f.u() + *s as usize)), Ok(Ok(_)))
         });
     }
     run.extra(
@@ -838,7 +901,7 @@ fn main() {
     run.note("pad_sweep enumerates every end size U-8..=U+70000 for each loaded fixture (complete over sizes, not over COSE structures)");
 
     // ---- (a') sign_claim ---------------------------------------------------------------------------------
-    // quick: dense strata + 300 random slacks per credential; thorough: every slack -8..=70000 for es256 and
+    // quick: dense strata + 600 random slacks per credential; thorough: every slack -8..=70000 for es256 and
     // ed25519, dense strata + 2000 random slacks for the other five.
     let signing: Vec<&Fixture> = world.fixtures.iter().filter(|f| f.alg.is_some()).collect();
     let mut cases = vec![];
@@ -846,7 +909,7 @@ fn main() {
         // (signing and the verification inside sign_claim run under the SDK's global OpenSSL lock, ~2 ms each,
         // so this layer does not parallelise)
         let slacks: Vec<i64> = if run.quick() {
-            strat_slacks(&mut rng, 300)
+            strat_slacks(&mut rng, 600)
         } else if f.name == "es256" || f.name == "ed25519" {
             (-8..=MAX_SLACK).collect()
         } else {
@@ -871,7 +934,7 @@ fn main() {
     let mut cases = vec![];
     for f in &signing {
         let slacks = if run.quick() {
-            strat_slacks(&mut rng, 12)
+            strat_slacks(&mut rng, 60)
         } else {
             let mut v: Vec<i64> = (-8..=1_200).collect();
             v.extend(65_000..=66_200);
